@@ -507,20 +507,21 @@ impl<'a> Printer<'a> {
             }
         }
         for p in &ix.path {
-            // no whitespace is allowed between the identifier / `]` and `[`
-            let mut s = String::from("[");
-            match p {
-                MIdx::Each => s.push('*'),
-                MIdx::Idx(n, form) => s.push_str(&IntLit { v: *n as i64, form: *form }.text()),
-                MIdx::Key(k, pol) => s.push_str(&quote_bytes(k.as_bytes(), *pol % 4)),
-            }
-            s.push(']');
-            // glue to the previous token
+            // no whitespace is allowed between the identifier / `]` and `[`,
+            // but it is inside the brackets
             if let Some(P::T(prev)) = self.out.last_mut() {
-                prev.push_str(&s);
+                prev.push('[');
             } else {
-                self.t(&s);
+                self.t("[");
             }
+            self.gap();
+            match p {
+                MIdx::Each => self.t("*"),
+                MIdx::Idx(n, form) => self.t(&IntLit { v: *n as i64, form: *form }.text()),
+                MIdx::Key(k, pol) => self.t(&quote_bytes(k.as_bytes(), *pol % 4)),
+            }
+            self.gap();
+            self.t("]");
         }
     }
 
